@@ -5,7 +5,7 @@ import json, os, pty, random, re, select, subprocess, sys, time
 
 VERIF = os.path.dirname(os.path.dirname(os.path.abspath(__file__)))
 BUILD = os.path.join(VERIF, ".build")
-BIN = os.path.join(BUILD, "pastel-target", "release", "pastel")
+BIN = os.environ.get("VERIF_PASTEL_BIN") or os.path.join(BUILD, "pastel-target", "release", "pastel")
 MODEL = os.environ.get("VERIF_MODEL_EXE") or os.path.join(VERIF, "lean", ".lake", "build", "bin", "pastel-model")
 ESC = b"\x1b"
 
@@ -752,6 +752,8 @@ def c18(res, tier, seed, lib):
 # ------------------------------------------------------------------------------------------ C16
 
 def c16(res, tier, seed, lib):
+    # `random` at the command line against the Lean CLI model: the count is validated, exactly N lines
+    modelled_family(res, random.Random(seed + 77), ['random'], 60 if tier != "thorough" else 600)
     for strat in ["vivid", "rgb", "gray", "lch_hue"]:
         for n in [0, 1, 2, 10, 1000] + ([65535, 65536, 70000] if strat == "gray" else []):
             rc, out, err = run_cli(["random", "-n", str(n), "-s", strat])
@@ -890,7 +892,7 @@ def stdin_script(rnd):
 
 def modelled_case(rnd, subs=None):
     sub = rnd.choice(subs or ["color", "lighten", "darken", "saturate", "desaturate", "rotate", "complement", "to-gray", "textcolor",
-                              "colorblind", "set", "format", "mix", "color", "format", "set", "gray", "gradient", "sort-by", "paint"])
+                              "colorblind", "set", "format", "mix", "color", "format", "set", "gray", "gradient", "sort-by", "paint", "random", "distinct", "pick"])
     if sub in ("lighten", "darken", "saturate", "desaturate"):
         cargs = [number_text(rnd, 0, 1)]
     elif sub == "rotate":
@@ -913,14 +915,22 @@ def modelled_case(rnd, subs=None):
                  rnd.choice(["Lab", "LCh", "RGB", "HSL", "OkLab", "lab", "rgb", "oklab", "hsl", "LCH"])]
     elif sub == "sort-by":
         cargs = [rnd.choice(["brightness", "luminance", "hue", "chroma"]), rnd.choice(["0", "0", "1"]), rnd.choice(["0", "0", "1"])]
+    elif sub == "random":
+        cargs = [rnd.choice(["0", "1", "3", "7", "+2", "010", "x", "", "-1", "2.0", " 3", "18446744073709551616", "1e2"])]
+    elif sub == "distinct":
+        cargs = [rnd.choice(["2", "2", "3", "3", "4", "1", "0", "+2", "x", "", "-3", "2.5"]), rnd.choice(["0", "0", "1"])]
+    elif sub == "pick":
+        cargs = [rnd.choice(["0", "1", "2", "x", "", "-1", "+1", "1.0"])]
     elif sub == "paint":
         cargs = [rnd.choice([rand_color_text(rnd), rand_color_text(rnd), "default", " default ", "-", bad_color_text(rnd)]),
                  rnd.choice(["", "", rand_color_text(rnd), bad_color_text(rnd), "-"]), rnd.choice(["0", "0", "1"])]
     else:
         cargs = []
     ncol = rnd.choice([0, 0, 1, 1, 2, 3, 6])
-    if sub == "gray":
+    if sub in ("gray", "random", "pick"):
         ncol = 0
+    if sub == "distinct":
+        ncol = rnd.choice([0, 0, 1, 2, 3, 4])
     if sub == "gradient":
         ncol = rnd.choice([1, 2, 2, 3, 4, 5])
     if sub == "paint":
@@ -953,6 +963,18 @@ def modelled_case(rnd, subs=None):
         argv = ["gradient", "-n", cargs[0], "-s", cargs[1]] + colors
         if cargs[0].startswith("-") and not is_number(cargs[0]):
             argv = None
+    elif sub == "random":
+        argv = ["random", "-s", rnd.choice(["vivid", "rgb", "gray", "lch_hue"]), "-n", cargs[0]]
+        if cargs[0].startswith("-") and not is_number(cargs[0]):
+            argv = None
+    elif sub == "pick":
+        argv = ["pick", cargs[0]]
+        if cargs[0].startswith("-") and not is_number(cargs[0]):
+            argv = None
+    elif sub == "distinct":
+        argv = ["distinct", cargs[0]] + (["--print-minimal-distance"] if cargs[1] == "1" else []) + (["-m", rnd.choice(["CIE76", "CIEDE2000"])] if rnd.random() < 0.3 else []) + colors
+        if cargs[0].startswith("-") and not is_number(cargs[0]):
+            argv = None
     elif sub == "sort-by":
         argv = ["sort-by", cargs[0]] + (["-u"] if cargs[1] == "1" else []) + (["-r"] if cargs[2] == "1" else []) + colors
     elif sub == "paint":
@@ -970,6 +992,10 @@ def modelled_case(rnd, subs=None):
     return argv, data, op
 
 
+# subcommands whose printed lines the model does not predict (random colours, a distance): only their number
+UNPREDICTED_OUTPUT = ("random", "distinct", "pick")
+
+
 def modelled_family(res, rnd, subs, n):
     """Random invocations of the given subcommands (random amounts incl. overshoot and malformed numbers,
     option values in any letter case, colours as arguments / `-` / stdin lines incl. bad and non-UTF-8
@@ -985,6 +1011,8 @@ def modelled_family(res, rnd, subs, n):
         res.case(op, True)
         res.tag("modelled:" + argv[0])
         res.tag("modelled:%s:%s" % (argv[0], "ok" if rc == 0 else (cls or "rc%d" % rc)))
+        if argv[0] in UNPREDICTED_OUTPUT:
+            out = b"".join(b"?\n" for _ in out.split(b"\n")[:-1]) + (b"" if out.endswith(b"\n") or out == b"" else b"<partial>")
         impl = "ok %d %s %s %s" % (rc, hexs(out), cls or "-", hexs(msg or ""))
         ops.append(op); meta.append((op, argv, impl))
     for (op, argv, impl), mo in zip(meta, model_batch(ops)):
@@ -1054,6 +1082,8 @@ def c19(res, tier, seed, lib):
         res.tag("modelled:" + argv[0]); res.tag("modelled:rc=%s" % rc)
         if cls:
             res.tag("modelled:err=" + cls)
+        if argv[0] in UNPREDICTED_OUTPUT:
+            out = b"".join(b"?\n" for _ in out.split(b"\n")[:-1]) + (b"" if out.endswith(b"\n") or out == b"" else b"<partial>")
         impl = "ok %d %s %s %s" % (rc, hexs(out), cls or "-", hexs(msg or ""))
         ops.append(op); meta.append((op, argv, impl))
     outs = model_batch(ops)
@@ -1945,6 +1975,8 @@ def c06(res, tier, seed, lib):
 # ------------------------------------------------------------------------------------------ C14
 
 def c14(res, tier, seed, lib):
+    # `distinct` at the command line against the Lean CLI model: order of the validations, N lines
+    modelled_family(res, random.Random(seed + 77), ['distinct'], 40 if tier != "thorough" else 400)
     rnd = random.Random(seed)
     runs = 10 if tier == "thorough" else 3
     preset = [(3, ["red", "red"]), (4, ["teal", "teal", "teal", "navy"]), (3, ["#102030", "#aabbcc", "#102030"])]
